@@ -197,3 +197,13 @@ Theorem C08_handed_is_returned : forall cfg s t q k c, t < nthr cfg -> tpc (thr 
   e_ret (snd (step cfg s t c)) = Some (top (thr s t), RTask (Some k)).
 Proof. exact handed_is_returned. Qed.
 Print Assumptions C08_handed_is_returned.
+
+(* the side condition "the locks of a task are different locks" is necessary: a task that names
+   the same lock twice is never handed out by any queue under any schedule, even if nobody holds
+   that lock (this is how defect D2, the hydro step that hangs with one subgrid on a periodic
+   axis, shows up at the level of the containers) *)
+Theorem C08_same_lock_twice_never_returned : forall cfg s t c o k l, reach cfg s -> wf_choice s t c = true ->
+  dep0 cfg k = Some l -> dep1 cfg k = Some l ->
+  e_ret (snd (step cfg s t c)) <> Some (o, RTask (Some k)).
+Proof. exact same_lock_twice_never_returned. Qed.
+Print Assumptions C08_same_lock_twice_never_returned.
